@@ -25,7 +25,7 @@ fn judge(spec: &CmdSpec, cmd: &clap::Command, argv: &[Vec<u8>], h: &mut Hist) ->
                 h.nontrivial += 1;
             }
             h.bump(&format!("ok/{}-explicit", ex.len().min(4)));
-            r2::evaluate(spec, &ob)
+            let mut bad: Vec<(String, String)> = r2::evaluate(spec, &ob)
                 .into_iter()
                 .map(|b| {
                     (
@@ -33,7 +33,20 @@ fn judge(spec: &CmdSpec, cmd: &clap::Command, argv: &[Vec<u8>], h: &mut Hist) ->
                         format!("{:?}; explicit {:?}; matches: {}", b, ex, ob.show()),
                     )
                 })
-                .collect()
+                .collect();
+            // a group is present exactly when one of its members is: a group record without any
+            // explicitly present member would satisfy or trigger relations on its own
+            for g in &spec.groups {
+                let g_present = ob.args.get(&g.id).map(|a| a.present && a.explicit()).unwrap_or(false);
+                let member = r2::members(spec, &g.id).iter().any(|m| ex.contains(*m));
+                if g_present && !member {
+                    bad.push((
+                        "a group is reported present although none of its members is".to_string(),
+                        format!("group {}; explicit {:?}; matches: {}", g.id, ex, ob.show()),
+                    ));
+                }
+            }
+            bad
         }
         Outcome::Err(e) => {
             h.bump(&format!("err/{}", e.kind));
@@ -74,6 +87,16 @@ fn main() {
     let rep = Report::new(PROP, tier, cli.seed);
     let k = tier.pick(3usize, 4usize);
     // argv length per edge count
+    // argv length by edge count; 3-edge graphs get the longer lines in the quick tier only when
+    // they contain an override edge (removal of earlier occurrences needs three tokens to matter)
+    let len_for_graph = |names: &[String]| -> usize {
+        let edges = names.len();
+        let has_override = names.iter().any(|n| n.contains("overrides_with"));
+        match tier {
+            Tier::Quick => if edges <= 2 { 4 } else if has_override { 3 } else { 2 },
+            Tier::Thorough => if edges <= 3 { 4 } else { 2 },
+        }
+    };
     let len_for = |edges: usize| -> usize {
         match tier {
             Tier::Quick => if edges <= 2 { 4 } else { 2 },
@@ -91,7 +114,7 @@ fn main() {
     if let Some((b, c)) = single {
         let (names, spec) = &graphs[b as usize];
         let Ok(cmd) = build_valid(spec) else { std::process::exit(0) };
-        let argv = &argv_by_len[len_for(names.len())][c as usize];
+        let argv = &argv_by_len[len_for_graph(names)][c as usize];
         sup::describe_case(PROP, &json!({"edges": names, "spec": spec.to_json(), "argv_hex": hex_argv(argv), "argv_shown": show_argv(argv)}));
         let mut h = Hist::new();
         let bad = judge(spec, &cmd, argv, &mut h);
@@ -111,7 +134,7 @@ fn main() {
             }
         };
         let mut h = Hist::new();
-        let argvs = &argv_by_len[len_for(names.len())];
+        let argvs = &argv_by_len[len_for_graph(names)];
         for (ci, argv) in argvs.iter().enumerate() {
             journal.begin(tid, bi as u64, ci as u64);
             h.evaluations += 1;
